@@ -233,6 +233,17 @@ pub fn arb_retry() -> BoxedStrategy<RetryCase> {
             c
         })
         .boxed()
+        .prop_flat_map(|c| (Just(c), prop::bool::weighted(0.1)))
+        .prop_map(|(mut c, swap)| {
+            // the statement quantifies over all (min, max) pairs: one case in ten has the minimum
+            // above the maximum, where "min x 2^(k-1) capped at max" is max from the first failure on
+            if swap {
+                std::mem::swap(&mut c.min_ns, &mut c.max_ns);
+                std::mem::swap(&mut c.min_huge, &mut c.max_huge);
+            }
+            c
+        })
+        .boxed()
 }
 
 pub fn check_retry(case: &RetryCase) -> CaseResult {
@@ -242,6 +253,9 @@ pub fn check_retry(case: &RetryCase) -> CaseResult {
     let (min_ns, max_ns) = (min.as_nanos(), max.as_nanos());
     if case.max_huge != 0 {
         ok.label("cap_near_duration_max");
+    }
+    if min > max {
+        ok.label("min_above_max");
     }
     let mut s = rodbus::doubling_retry_strategy(min, max);
     let mut k: u32 = 0; // consecutive failures so far
